@@ -1,18 +1,24 @@
-"""C19 - scanning geometry is self-consistent (conversions only; the reconstruction clauses are not applicable)."""
+"""C19 - scanning geometry is self-consistent: conversions proved, reconstruction clauses by a bounded stand-in."""
 import contracts  # noqa
 from contracts import py_geometry
 
-LEVEL = "proof"
+LEVEL = "other"
 WALL_MS = 60000
 TRUSTED = ["sin^2+cos^2 = 1 instantiated per occurring angle", "numpy scalar/ufunc semantics on symbolic scalars (object dispatch) equals the float semantics",
            "np.round = round-half-even, astype(int) truncates"]
 ASSUMPTIONS = ["ystep != 0", "recon_shape entries are integers (// is floor division)",
-               "NOT claimed: 'reconstructs within 1.5 pixels', linearity, worker-count and ROI independence of iradon "
-               "(FFT filtering, interpolation, python threads: no contract within reach decides them; see DESIGN.md section 7)"]
+               "the reconstruction clauses (point grain within 1.5 px, linearity, worker-count and ROI independence of iradon) are decided by the "
+               "bounded stand-in only: FFT filtering, interpolation and python threads are outside the engines"]
 EXPLANATION = ("every conversion function of sinograms/geometry.py is executed symbolically and the compositions are proved to be identities; "
                "in-beam dty makes lab y zero; sincos/degree variants agree; dty<->dtyi round-trips on integers; mask helpers and "
-               "point_by_point.get_voxel_idx are the stated compositions.")
+               "point_by_point.get_voxel_idx are the stated compositions. Bounded (never counted as proved): the real iradon / run_iradon on random "
+               "sinograms for 5 worker counts, 3 ROI masks and a linear combination, and point-like grains built with the module's own functions "
+               "(even/odd heights, half and full turns, off-centre rotation axis) reconstruct within 1.5 px of geometry.sample_to_recon.")
 
 
 def units(ctx):
-    return py_geometry.units() + py_geometry.pbp_units()
+    from verif.units import BoundedUnit
+    from contracts import py_recon
+    return py_geometry.units() + py_geometry.pbp_units() + [
+        BoundedUnit("iradon-workers-roi-linearity-point-grain", py_recon.bounded_recon,
+                    "random sinograms x 5 worker counts x 3 ROI masks, one linear combination each; 24 (thorough 100) point grains")]
